@@ -28,6 +28,8 @@ WITNESSES = [
     ("MC_Dataset", "MC_Dataset_C01Extra", "W_ExtraFieldMissing", "another field is missing where the observation is present (C01)"),
     ("MC_Dataset", "MC_Dataset_C15Ens", "W_EnsembleUnderT", "ensemble members under -T on two inputs (C15)"),
     ("MC_Dataset", "MC_Dataset_C11Sel", "W_SelectionRemovesTimes", "a -d / -tod selection that removes some, not all, times (C11)"),
+    ("MC_Dataset", "MC_Dataset_C11Two", "W_CommonRunAtDifferentPositions", "a run common to two files sits at different positions in them (C11)"),
+    ("MC_TextFormat", "MC_TextFormat_quick", "W_NoIdCloseSites", "a file without a location column whose two sites lie a hundred-thousandth of a degree apart (C09)"),
     ("MC_TextFormat", "MC_TextFormat_quick", "W_NoLeadingDigit", "column names whose number has no leading digit (C09)"),
     ("MC_TextFormat", "MC_TextFormat_quick", "W_MixedOrderThresholds", "threshold columns in an order that is not ascending (C09, C10)"),
     ("MC_Aggregators", "MC_Aggregators_win", "W_IncreasingGrid", "WindowLemmas: contiguous trailing windows on increasing grids (C15)"),
